@@ -15,6 +15,11 @@
                on the stored channels
           28 = C10_frame (files): a file outside the curation state changed or appeared
           29 = close() raised
+          30 = the spike ids found in the store file after an extraction are not an answer the selector
+               may give for THAT extraction (SpikeSelector, n_chunks_kept = 20, subset_chunks=True):
+               per template, min(max_n_spikes_per_template, #spikes of the template inside the kept
+               chunks) ids, all of them spikes of the template inside the kept chunks -- relational,
+               the random choice itself is not predicted
           3  = input outside the stated regime (harness bug)
    Strings are classified by the identity oracle [CText]: the harness asserts, with Python's own
    int()/float(), that no saved string is numeric. *)
@@ -43,7 +48,8 @@ Record oview := mkoview {
 }.
 Inductive oreload := OView (v : oview) | OFail.
 
-Inductive input := InHist (d0 : disk) (ops : list op).
+(* nsts: max_n_spikes_per_template of each SaveSubset operation, in order *)
+Inductive input := InHist (d0 : disk) (ops : list op) (nsts : list Z).
 (* views: one per executed reload; crash_at: index of the (non-reload) operation that raised *)
 Inductive observed := ObsHist (views : list oreload) (crash_at : option Z) | ObsCrash.
 Record case := { cid : Z; cin : input; cobs : observed }.
@@ -201,6 +207,55 @@ Definition clause_lookup (d0 : disk) (pre : list op) (v : oview) : bool :=
   | _, _, _ => false
   end.
 
+(* ---------------- the selection of an extraction (relational) ---------------- *)
+(* SpikeSelector.__init__: for i in range(0, n_chunks, max(1, int(ceil(n_chunks / 20)))): keep chunk i *)
+Definition kept_step (n : Z) : Z := Z.max 1 ((n + 19) / 20).
+Fixpoint every_nth (step : nat) (k : nat) (l : list iv) : list iv :=
+  match l with
+  | [] => []
+  | c :: r => match k with
+              | O => c :: every_nth step (step - 1) r
+              | S k' => every_nth step k' r
+              end
+  end.
+Definition kept_chunks (chunks : list iv) : list iv :=
+  every_nth (Z.to_nat (kept_step (zlen chunks))) 0 chunks.
+(* _times_in_chunks: searchsorted(chunks_kept, t, side='right') odd = t in [lo, hi) of a kept chunk
+   (samples lie below the last bound: rest_ok_b) *)
+Definition in_kept (chunks : list iv) (s : Z) : bool :=
+  existsb (fun c => (lo c <=? s) && (s <? hi c)) (kept_chunks chunks).
+Definition spikes_of (r : rest) (t : Z) : list Z :=
+  filter (fun i => match nth_error (r_templates r) (Z.to_nat i), nth_error (r_samples r) (Z.to_nat i) with
+                   | Some t', Some sm => (t' =? t) && in_kept (r_chunks r) sm
+                   | _, _ => false
+                   end) (zrange 0 (List.length (r_samples r))).
+Definition select_ok (r : rest) (nst : Z) (ids : list Z) : bool :=
+  (1 <=? nst) &&
+  forallb (fun t =>
+             let cand := spikes_of r t in
+             let got := filter (fun i => match nth_error (r_templates r) (Z.to_nat i) with
+                                         | Some t' => t' =? t | None => false end) ids in
+             forallb (fun i => existsb (Z.eqb i) cand) got && (zlen got =? Z.min nst (zlen cand)))
+          (zrange 0 (List.length (r_best r))).
+(* one verdict per executed SaveSubset (those before the operation that raised) *)
+Fixpoint sel_codes (r : rest) (ops : list op) (nsts : list Z) (crash : option Z) (k : Z) : list Z :=
+  match ops with
+  | [] => []
+  | o :: rest' =>
+      if match crash with Some c => c <=? k | None => false end then [] else
+      match o with
+      | SaveSubset ids w =>
+          match nsts with
+          | n :: ns => (match r_raw r with
+                        | None => []
+                        | Some _ => flag 30 (select_ok r n ids)
+                        end) ++ sel_codes r rest' ns crash (k + 1)
+          | [] => [3]
+          end
+      | _ => sel_codes r rest' nsts crash (k + 1)
+      end
+  end.
+
 Definition loadable (cl : list Z) (r : rest) : bool :=
   (zlen cl =? zlen (r_samples r)) && forallb (fun c => (0 <=? c) && (c <? 2147483648)) cl.
 
@@ -266,9 +321,10 @@ Fixpoint walk (d0 : disk) (pre : list op) (d : disk) (ops : list op) (views : li
 Definition check (c : case) : list Z :=
   nodup Z.eq_dec
     match cin c, cobs c with
-    | InHist d0 ops, ObsHist views crash =>
-        if negb (disk_ok d0) then [3] else walk d0 [] d0 ops views crash 0 false
-    | InHist d0 ops, ObsCrash => [1; 26]
+    | InHist d0 ops nsts, ObsHist views crash =>
+        if negb (disk_ok d0) then [3]
+        else walk d0 [] d0 ops views crash 0 false ++ sel_codes (d_rest d0) ops nsts crash 0
+    | InHist d0 ops _, ObsCrash => [1; 26]
     end.
 
 Definition run (cases : list case) : list (Z * Z) :=
